@@ -308,6 +308,7 @@ func runC09(cx *Ctx, r *Report) {
 			r.check(ok, "issue-cap", "token/v1.MsgIssueToken.ValidateBasic", cx.P.Pos(tn.Pos()), "MsgIssueToken.ValidateBasic accepts only MaxSupply ≥ InitialSupply", "MsgIssueToken.ValidateBasic no longer rejects MaxSupply < InitialSupply")
 		}
 	}
+	cx.lostUpdateRule(r, []string{"token"}, 10)
 	r.requireCount("identity-unique", 6)
 	r.requireCount("owner-guard", 6)
 	r.requireCount("fee-split", 4)
